@@ -139,8 +139,10 @@ BinInfo(op, a, b) ==
 ShiftInfo(op, a, b) ==
     LET fold == FoldOK(op, a, b)
         v    == FoldVal(op, a, b)
-        w    == IF ~a.ex /\ ~b.ex /\ fold THEN BitLenNat(v) ELSE a.w
-    IN  IF ~a.ex /\ ~b.ex /\ a.cst /\ b.cst /\ ~fold THEN Unsup
+        \* an inferred left operand and a foldable result: the width of the folded value, also when
+        \* the shift amount is an explicitly sized constant
+        w    == IF ~a.ex /\ fold THEN BitLenNat(v) ELSE a.w
+    IN  IF ~a.ex /\ a.cst /\ b.cst /\ ~fold THEN Unsup
         ELSE
         [Info(w, a.ex, fold, IF fold THEN v ELSE 0, FALSE)
            EXCEPT !.cst  = a.cst /\ b.cst,
